@@ -227,7 +227,7 @@ def abrm_ptx(b1, x, g, dt, fmap=None, sens=None):
 
         if fmap is not None and xp.sum(xp.abs(fmap)) != 0:
             rep_b0 = xp.repeat(xp.expand_dims(fmap.flatten(), 0), Nt, axis=0)
-            bz += xp.transpose(rep_b0 / gam * 2 * xp.pi)
+            bz = bz + xp.transpose(rep_b0 / gam * 2 * xp.pi)
 
         statea = xp.ones((Ns, 1))
         stateb = xp.zeros((Ns, 1))
